@@ -159,3 +159,34 @@ func TestReplaySearchJSONMeaning(t *testing.T) {
 		}
 	}
 }
+
+// name, description and salience of the built rule are those of the JSON rule (its own harness: it demonstrates an open
+// finding for descriptions that need escaping and must not mask the searches above)
+func TestReplaySearchJSONDescription(t *testing.T) {
+	for _, desc := range []string{`plain`, ``, `semi;colon and {braces}`, `üñí`, `'single'`, `the "speed"`, `back\slash`, "new\nline"} {
+		for _, sal := range []int{0, 7, -3, 2147483647, -2147483648} {
+			rule := map[string]interface{}{"name": "R", "desc": desc, "salience": sal,
+				"when": map[string]interface{}{"eq": []interface{}{map[string]interface{}{"obj": "F.A"}, map[string]interface{}{"const": float64(0)}}},
+				"then": []interface{}{`Retract("R")`}}
+			js, _ := json.Marshal(rule)
+			grl, err := pkg.ParseJSONRule(js)
+			if err != nil {
+				t.Fatalf("CONFIRMED: JSON rule with description %q salience %d is not translated: %v", desc, sal, err)
+			}
+			lib := ast.NewKnowledgeLibrary()
+			if err := builder.NewRuleBuilder(lib).BuildRuleFromResource("K", "1", pkg.NewBytesResource([]byte(grl))); err != nil {
+				t.Fatalf("CONFIRMED: the GRL produced for description %q salience %d is not accepted: %v\nGRL: %s", desc, sal, err, grl)
+			}
+			re, ok := lib.GetKnowledgeBase("K", "1").RuleEntries["R"]
+			if !ok {
+				t.Fatalf("CONFIRMED: the built knowledge base has no rule R\nGRL: %s", grl)
+			}
+			if re.Salience != sal {
+				t.Fatalf("CONFIRMED: salience %d of the JSON rule comes back as %d\nGRL: %s", sal, re.Salience, grl)
+			}
+			if re.RuleDescription != desc {
+				t.Fatalf("CONFIRMED: description of the JSON rule does not come back equal: JSON %q, built rule %q\nGRL: %s", desc, re.RuleDescription, grl)
+			}
+		}
+	}
+}
